@@ -28,6 +28,12 @@ package rules
 //	M3  InheritWithRecovery: recover handler re-panics                      → R-C20-1 panic of the callback is recovered
 //	M26 TrafficController.Close: entity.Instance().Close() in the Range     → R-C20-1 Object.Close callback
 //	M29 CloseWithRecovery: callback moved into a loop                       → R-C20-1 Object.Close callback (loop)
+//	W1  CloseWithRecovery: `if e.generation == 0 { return }` (round-2 a)    → R-C20-1 callback reached exactly once on every non-panicking path
+//	W2  InheritWithRecovery: early return when the predecessor's generation is 0 → same obligation
+//	W3  CloseWithRecovery: Close only in an `if c, ok := e.instance.(Controller)` branch → same
+//	W4  InitWithRecovery: TrafficObject case logs instead of calling Init   → same
+//	W5  CloseWithRecovery: e.instance.Close() twice                         → same (more than once)
+//	    preserving: W6 `if e.instance == nil { return }` guard, W7 local `inst := e.instance; inst.Close()`, P7 → silent
 //	M4  applyConfig: drop `continue` after the build error                  → R-C20-2 failed spec leaves entry untouched
 //	M5  applyConfig: `!exists` → `exists` in the deletion loop              → R-C20-2 deleted iff registered and absent
 //	M6  applyConfig: drop delete(or.entities, name)                         → R-C20-2 deleted iff registered and absent
@@ -87,7 +93,7 @@ const (
 func init() { Registry["C20"] = c20 }
 
 func c20(c *core.Ctx) string {
-	c.Rule("R-C20-1", "lifecycle only under per-object recovery: every dynamic call of Init/Inherit/Close on a supervisor.Object interface value is made either in a wrapper (call outside any loop and function literal, every panic exit of the wrapper is recovered by a deferred function) or by a method of an Object kind on one of its own parameters outside any loop (previousGeneration.Close() inside Inherit, which the supervisor only enters through a wrapper); all other code (loops over entities in handleEvent, TrafficController.Close/Clean, Supervisor.close) must go through the *WithRecovery wrappers, so one panicking object cannot abort the reconciliation of the others")
+	c.Rule("R-C20-1", "lifecycle only under per-object recovery: every dynamic call of Init/Inherit/Close on a supervisor.Object interface value is made either in a wrapper (call outside any loop and function literal, every panic exit of the wrapper is recovered by a deferred function, and every normally returning path of the wrapper invokes the callback exactly once — no state-dependent early return before it) or by a method of an Object kind on one of its own parameters outside any loop (previousGeneration.Close() inside Inherit, which the supervisor only enters through a wrapper); all other code (loops over entities in handleEvent, TrafficController.Close/Clean, Supervisor.close) must go through the *WithRecovery wrappers, so one panicking object cannot abort the reconciliation of the others")
 	c.Rule("R-C20-2", "diff classification of ObjectRegistry.applyConfig (decision table over all paths of one iteration): deleted ⇔ registered ∧ absent from config (and removed from entities); a spec that fails to build touches nothing; an unchanged spec (Equals) touches nothing; otherwise predecessor ⇒ updated, none ⇒ created (or deleted+created when the kind changed), entities[name] set to the new entity in both; per watcher the event maps and watcher.entities move together, deletions before creations, and the event is sent after all three classes")
 	c.Rule("R-C20-3", "kind change is close + init: a name is filed under 'updated' (hence Inherit(new, old)) only in states where the equality of the previous and the new kind has been established")
 	c.Rule("R-C20-4", "handler order and idempotence: handleEvent finishes Delete before Create and Update; Delete closes exactly the entity it removed from the live map (close ⇔ removed, only when found); Create initialises only an absent name and stores the initialised entity; Update inherits only from the loaded live predecessor and stores the new entity under the same key; same shapes for TrafficController Create/Update/Apply/Delete with tc.mutex held; RawConfigTrafficController dispatches each event class to the matching TrafficController verb, pipelines and traffic gates by kind")
@@ -468,13 +474,59 @@ func c20Recovery(c *core.Ctx) {
 		for _, s := range w.sites {
 			isSite[s] = true
 		}
+		const evCb, evCb2 = "ev:callback", "ev:callback-twice"
 		res := analyze(c, f, flow.Config{
 			NoHavoc:  true,
 			MayPanic: func(call *ast.CallExpr, callee types.Object) bool { return isSite[call] },
+			OnCall: func(st *flow.State, call *ast.CallExpr, callee types.Object, deferred bool) {
+				if isSite[call] {
+					if st.Is(evCb, flow.True) {
+						st.Set(evCb2, flow.True)
+					}
+					st.Set(evCb, flow.True)
+				}
+			},
 		})
 		if res == nil {
 			continue
 		}
+		// the wrapper is the only way the handlers reach the callback: every path that does not
+		// end in a (recovered) panic must have invoked it exactly once. A guard on the callback's
+		// receiver being nil is the one harmless skip (the call would panic and be recovered).
+		var reach c20Finding
+		what := w.sites[0].Fun.(*ast.SelectorExpr).Sel.Name
+		for _, ex := range res.Exits {
+			if ex.Kind != flow.ExitReturn || ex.State.Is(flow.Recovered, flow.True) {
+				continue
+			}
+			reach.n++
+			st := ex.State
+			if st.Is(evCb2, flow.True) {
+				reach.fail(st, ex.At, declName(w.pkg, w.fd)+" invokes the object's "+what+" more than once on one path: the object is initialised/inherited/closed twice for one configuration change")
+				continue
+			}
+			if st.Is(evCb, flow.True) {
+				continue
+			}
+			nilRecv := false
+			for _, s := range w.sites {
+				if st.Is(f.NilKey(s.Fun.(*ast.SelectorExpr).X), flow.True) {
+					nilRecv = true
+				}
+			}
+			if !nilRecv {
+				reach.fail(st, ex.At, declName(w.pkg, w.fd)+" returns normally on a path that never invokes the object's "+what+" (state-dependent early return / branch without the callback): the handlers treat the step as done, so "+map[string]string{
+					"Init":    "an object that was never initialised is stored as live",
+					"Inherit": "the new generation is stored as live although it neither took over nor closed the previous one, which keeps running",
+					"Close":   "an object whose name disappeared is dropped from the live map without ever being closed (e.g. one whose earlier Init/Inherit panicked and was recovered): its listeners, goroutines and ports leak",
+				}[what])
+			}
+		}
+		if reach.n == 0 {
+			reach.fail(nil, w.fd, declName(w.pkg, w.fd)+" has no normally returning path at all")
+		}
+		reach.report(c, "R-C20-1", declName(w.pkg, w.fd)+"|callback reached exactly once on every non-panicking path", w.fd,
+			sprintf("%d normally returning paths all invoke the object's %s exactly once", reach.n, what))
 		var bad c20Finding
 		for _, ex := range res.Exits {
 			bad.n++
